@@ -174,6 +174,15 @@ CORPUS["C06"] = [
     M("ring at the limit is kept", (CPH, "        jmask = jjstep < jlim[..., None]", "        jmask = jjstep <= jlim[..., None]")),
     B("ring mask written from the outside", (CPH, "        jmask = jjstep < jlim[..., None]\n", "        jmask = ~(jjstep >= jlim[..., None])\n")),
     B("ring limit with the factors swapped", (CPH, "        CradLim = DistStep * np.tan(thetaC, dtype=self.dtype)", "        CradLim = np.tan(thetaC, dtype=self.dtype) * DistStep")),
+    M('aerosol optical depth interpolated with the wrong sign of the slope', (CPH, '            - (z[z < 30] - self.dtype(np.int32(z[z < 30])))', '            + (z[z < 30] - self.dtype(np.int32(z[z < 30])))')),
+    M('aerosol slant factor from the propagation angle itself', (CPH, '        costhet = np.cos(self.pi / 2 - ThetPrpA[z < 30], dtype=self.dtype)', '        costhet = np.cos(ThetPrpA[z < 30], dtype=self.dtype)')),
+    M('aerosol layer extended to 35 km (table has 31 entries)', (CPH, '        aTrans[z < 30, :] = np.exp((aODepth / costhet[:, None]), dtype=self.dtype)', '        aTrans[z < 35, :] = np.exp((aODepth / costhet[:, None]), dtype=self.dtype)')),
+    M('slope table read one km higher', (CPH, '            * self.dfaOD55[np.int32(z[z < 30])]', '            * self.dfaOD55[np.int32(z[z < 30]) + 1]')),
+    M('step grammage without the km to cm factor', (CPH, '        delgram_vals = rhos * self.dL * self.dtype(1e5)', '        delgram_vals = rhos * self.dL * self.dtype(1e3)')),
+    M('ozone per step divided by the step length instead of the vertical extent', (CPH, '        ZonZ_vals = (TotZons[:-1] - TotZons[1:]) / delzs * self.dL', '        ZonZ_vals = (TotZons[:-1] - TotZons[1:]) / self.dL * delzs')),
+    M('ozone difference taken two steps apart', (CPH, '        ZonZ_vals = (TotZons[:-1] - TotZons[1:]) / delzs * self.dL', '        ZonZ_vals = (TotZons[:-2] - TotZons[2:]) / delzs[:-1] * self.dL')),
+    B('aerosol exponent with the minus sign moved', (CPH, '        aODepth = -np.outer(tmpOD, self.aBetaF)\n', '        aODepth = np.outer(-tmpOD, self.aBetaF)\n')),
+    B('step grammage with the factors reordered', (CPH, '        delgram_vals = rhos * self.dL * self.dtype(1e5)', '        delgram_vals = self.dtype(1e5) * self.dL * rhos')),
     M("shower age from 2 t instead of 3 t", (CPH, "        s[mask] = self.dtype(3) * t[mask] / (t[mask] + self.dtype(2) * greisen_beta)", "        s[mask] = self.dtype(2) * t[mask] / (t[mask] + self.dtype(2) * greisen_beta)")),
     M("radiation length 37.15", (CPH, "        t[mask] = gramsum[mask] / self.dtype(36.66)", "        t[mask] = gramsum[mask] / self.dtype(37.15)")),
     M("track length without the square", (CPH, "        t4 = np.power(1 + self.dtype(1e-4 * s * eCthres), 2, dtype=self.dtype)", "        t4 = np.power(1 + self.dtype(1e-4 * s * eCthres), 1, dtype=self.dtype)")),
